@@ -297,6 +297,23 @@ def _all_targets(acc, root, allfiles, dirs, patterns, carrier, tree, front="inpr
                 acc.fail({"edge": "subdir-vs-root"}, {**case, "target": d, "recursive": True, "is_file": False}, sorted(f for f in whole if f.startswith(d + "/")), sorted(sub))
         if "/" not in d:
             _one_run(acc, root, allfiles, patterns, carrier, d, False, False, tree, front)
+    # several targets in one invocation: directory (recursive / non-recursive) + an explicit file
+    nested = [f for f in allfiles if "/" in f and not f.startswith(".thailint")][:2]
+    for f in nested:
+        for rec in (True, False):
+            argv = ["file-placement"] + ([] if rec else ["--no-recursive"]) + [".", f]
+            r = obs.cli_json(argv, root, sub=(front == "subprocess"))
+            acc.case()
+            acc.edge()
+            if r["violations"] is None:
+                continue
+            got = {obs.relfile(v["file"], root, root) for v in r["violations"] if v["rule_id"].startswith("file-placement")}
+            e1, o1 = model(allfiles, patterns, ".", rec, False)
+            e2, o2 = model(allfiles, patterns, f, True, True)
+            want, open_ = e1 | e2, o1 | o2
+            if (got - open_) != (want - open_):
+                miss, extra = sorted(want - got - open_), sorted(got - want - open_)
+                acc.fail({"edge": "dir-plus-explicit-file", "recursive": rec, "mode": "missing" if miss and not extra else ("extra" if extra and not miss else "differs")}, {"tree": tree, "patterns": patterns, "carrier": carrier, "target": [".", f], "recursive": rec, "is_file": False, "multi": True}, sorted(want), sorted(got), "directory target plus an explicitly named file in one invocation = union of both")
     for f in allfiles:
         if f.startswith(".thailint"):
             continue
@@ -342,6 +359,11 @@ def _tt(t):
 def replay_case(case) -> list[dict]:
     acc = Acc()
     t = _tt(case["tree"])
+    if case.get("multi"):
+        root, allfiles, dirs = _materialise(t, case["patterns"], case["carrier"])
+        _all_targets(acc, root, allfiles, dirs, case["patterns"], case["carrier"], t)
+        remove(root)
+        return [f for f in acc.failures if f["case"].get("multi") and f["case"]["target"] == case["target"] and f["case"]["recursive"] == case["recursive"]]
     root, allfiles, dirs = _materialise(t, case["patterns"], case["carrier"])
     print("files:", sorted(allfiles), "\npatterns:", case["patterns"], "via", case["carrier"])
     print(f"$ thailint file-placement {'' if case['recursive'] else '--no-recursive '}{case['target']}   (cwd = project root)")
